@@ -84,7 +84,7 @@ func main() {
 		"evaluations":         st.runs + rt.runs + ra.runs,
 		"distinct_nontrivial": st.faultsFired + rt.runsWithFailure + ra.inside,
 		"rule": fmt.Sprintf("stores: every history of <=%d ops over {Create(k), Write1/Write2(w), Commit(w), Discard(w), Open(k,off in {0,1,len-1,len,len+1}), Stat(k), Discard(k)} on 2 keys x %d key configurations, ops enabled by the model state, on memoryStore and on fileStore over vfs://; each fileStore history re-run once per (file-operation label of its fault-free run) x (fail | failpartial for Write | crash); a fault run is non-trivial when the armed label fired. re-commit histories: every sequence over {WC(k,1..3) = Create+Write of 3/5/6 bytes+Commit, Open(k,0), Open(k,1), Stat(k), DiscardEntry(k)} up to the depths listed under recommit_plans, on one and on two keys, both stores, with the same single-fault sweep where the plan says sweep=true. "+
-			"retryReader: DFS over all opener scripts over {D1,D2,D3,F,P1,P2,P3,O} up to length budget+2=%d (deliveries larger than the read buffer are omitted as duplicates; extensions of scripts whose tail is never consumed are pruned as equivalent), x {after the script: recover | open-fails; and, for scripts up to length %d, read-fails-0 | read-returns-1-byte-and-error | deliver-1-then-fail} x {EOF separate, EOF with last bytes} x read-buffer sizes; non-trivial = at least one scripted failure was consumed",
+			"retryReader: DFS over all opener scripts over {D1,D2,D3,F,P1,P2,P3,O} up to length budget+2=%d (deliveries larger than the read buffer are omitted as duplicates; extensions of scripts whose tail is never consumed are pruned as equivalent), x {after the script: recover | open-fails; and, for scripts up to length %d, read-fails-0 | read-returns-1-byte-and-error | deliver-1-then-fail} x {EOF separate, EOF with last bytes} x read-buffer sizes x the VALUE of the transient failure (a plain error for every configuration; io.ErrUnexpectedEOF, io.ErrClosedPipe, io.ErrNoProgress, context.DeadlineExceeded of a sub-call, base-errors Net / Unavailable / Temporary for the 4-byte buffer and scripts one step shorter; in thorough for every buffer and the full length); non-trivial = at least one scripted failure was consumed",
 			depth, len(keyConfigs), rt.maxLen, rt.extraTailMaxLen),
 		"stores": map[string]interface{}{
 			"depth":                          depth,
@@ -125,7 +125,7 @@ func main() {
 			"distinct_outcomes":               rt.outcomes.Distinct(),
 			"outcomes":                        rt.outcomes.Keys(),
 			"max_script_len":                  rt.maxLen,
-			"configs(eof_with_data,buf_size)": rt.configs,
+			"configs(eof_with_data,buf_size,failure_value)": rt.configs,
 			"violating_runs":                  rt.violRuns,
 		},
 		"distinct_outcomes": st.outcomes.Distinct() + rt.outcomes.Distinct() + ra.outcomes.Distinct(),
